@@ -624,4 +624,8 @@ func TestVerifC08(t *testing.T) {
 
 	// (F) every field of every reachable message with its extreme values, one at a time
 	r.directedCases()
+
+	// (G) every field with malformed and boundary JSON tokens, one at a time
+	r.hostileJSONCases()
+	r.hostilePBCases()
 }
